@@ -82,7 +82,7 @@ def mk_line(s, arr, judge, form="slash", rule_style="opt", repeat=False, extra_f
             # library arrangements run over the instrumented transport: record the complete session
             # transcript, validated action by action against the composed specification (RsyncTrace.tla)
             # (daemon arrangements: through a tap proxy in front of the daemon's socket)
-            "full": arr in ("lib", "libpush", "pull", "push") and form == "slash" and not wild and not missing}
+            "full": arr in ("lib", "libpush", "pull", "push") and form == "slash" and not wild}
 
 
 def attach_peers(obs, lines):
